@@ -22,7 +22,7 @@ try:
         ok = rc_clean == 0 and rc_mut == 1 and rc_suite == 0
         print("clean demo exit=%d, patched demo exit=%d, suite: %s" % (rc_clean, rc_mut, o_suite.strip().splitlines()[-1] if o_suite.strip() else rc_suite))
         if ok:
-            out = "/verif/seeded/%s-m%s" % (prop, k)
+            out = "/verif/seeded/%s-%s%s" % (prop, os.environ.get("SEED_TAG", "m"), k)
             os.makedirs(out, exist_ok=True)
             shutil.copy(os.path.join(inc, "m%s.patch" % k), os.path.join(out, "patch.diff"))
             shutil.copy(demo, os.path.join(out, "m%s_demo.cpp" % k)); shutil.copy(script, os.path.join(out, "m%s_demo.sh" % k))
@@ -38,8 +38,8 @@ try:
     m = re.search(r"(g\+\+.*)$", first); assert m, first
     cmd = m.group(1).strip()
     cmd = re.split(r"\s{2,}\(|\s+\(|\s+#|\s+//", cmd)[0]
-    cmd = re.sub(r"/tmp/seedwt_\w+", wt, cmd)
-    cmd = re.sub(r"/tmp/%s_out" % prop, inc, cmd)
+    cmd = re.sub(r"/tmp/seedwt2?_\w+", wt, cmd)
+    cmd = re.sub(r"/tmp/%s_out2?" % prop, inc, cmd)
     cmd = re.sub(r"(?<![\w/])m%s_demo\.cpp" % k, demo, cmd)
     cmd = re.sub(r"-o\s+\S+", "-o %s/demo" % wt, cmd)
     if "-o " not in cmd: cmd += " -o %s/demo" % wt
@@ -52,7 +52,7 @@ try:
     ok = rc_clean == 0 and rc_mut != 0 and rc_suite == 0
     print("clean demo exit=%d, patched demo exit=%d, suite: %s" % (rc_clean, rc_mut, o_suite.strip().splitlines()[-1] if o_suite.strip() else rc_suite))
     if ok:
-        out = "/verif/seeded/%s-m%s" % (prop, k)
+        out = "/verif/seeded/%s-%s%s" % (prop, os.environ.get("SEED_TAG", "m"), k)
         os.makedirs(out, exist_ok=True)
         shutil.copy(os.path.join(inc, "m%s.patch" % k), os.path.join(out, "patch.diff"))
         shutil.copy(demo, os.path.join(out, "demo.cpp"))
